@@ -12,6 +12,8 @@ MANIFEST = dict(
 def check(ctx):
     rows = R.run_kind(ctx, 'ops')
     R.compare(ctx, rows, proj_values, 'C04 delivered values and terminal', nontrivial=nontrivial_op)
-    return dict(rule='every catalogue operator x parameters (boundaries) x four variants x named callbacks x raw scripts (exhaustive to length 2/3 over '
+    rows = R.run_kind(ctx, 'chains')
+    R.compare(ctx, rows, proj_values, 'C04 chains = composition of the parts (Machine.seq)', nontrivial=lambda c, gd: gd.get('trace', '-') != '-')
+    return dict(rule='random chains of 2-5 int->int operators (sync/hot, cuts) + ' + 'every catalogue operator x parameters (boundaries) x four variants x named callbacks x raw scripts (exhaustive to length 2/3 over '
                      '{-1,0,2,3} x three endings x illegal suffixes; seeded longer scripts) x {sync, hot}; compared: delivered values, kinds and order; '
                      'non-trivial = script has a value and something was delivered or dropped')
